@@ -63,6 +63,8 @@ def h_mgm_cycles(env):
     ap["stop_cycle"] = k
     net = Net(env, algo, mode, variables, cons, ap)
     net.cycle_values = {}
+    net.move_info = {}
+    net.gain_info = {}
     for name, c in net.comps.items():
         orig = c._on_new_cycle
 
@@ -70,6 +72,28 @@ def h_mgm_cycles(env):
             _o(count)
             net.cycle_values[(_n, count)] = _c.current_value
         c._on_new_cycle = on_nc
+        orig_vs = c._on_value_selection
+
+        def on_vs(val, cost, cycle, _o=orig_vs, _n=name, _c=c):
+            # (MGM2) remember, at the moment of a move, whether it is one half of a coordinated move
+            pt = getattr(_c, "_partner", None)
+            net.move_info[(_n, _c.cycle_count)] = (bool(getattr(_c, "_committed", False)), getattr(pt, "name", None))
+            _o(val, cost, cycle)
+        c._on_value_selection = on_vs
+        if algo == "mgm2":
+            orig_hg = c._handle_gain_messages
+
+            def hg(_o=orig_hg, _n=name, _c=c):
+                pt = getattr(_c, "_partner", None)
+                net.gain_info[(_n, _c.cycle_count)] = dict(committed=bool(_c._committed), partner=getattr(pt, "name", None),
+                                                           gain=_c._potential_gain, others=dict(_c._neighbors_gains))
+                _o()
+            c._handle_gain_messages = hg
+    if "offerers" in p:
+        # (MGM2) fix which computations act as offerers in every cycle instead of exploring the
+        # random draw: the role assignments are enumerated across shapes (one job each)
+        for name, c in net.comps.items():
+            c._threshold = 2 if name in p["offerers"] else -1
     order = list(net.comps)
     so = p.get("start_order", "fwd")
     if so == "rev":
@@ -119,25 +143,67 @@ def h_mgm_cycles(env):
     F = [global_cost(a, tabs, varcost, variables) for a in A]
     for c in range(len(A) - 1):
         # ---- C03
-        env.prove("%s.C03.global-cost-never-worse-between-cycles" % algo, not_worse(mode, F[c + 1], F[c]),
-                  detail=lambda: dict(before=A[c], after=A[c + 1], F_before=F[c], F_after=F[c + 1], mode=mode))
         movers = [n for n in names if A[c][n] != A[c + 1][n]]
+        coordinated = []
         for a, b in itertools.combinations(movers, 2):
             share = any(a in [v.name for v in t.variables] and b in [v.name for v in t.variables] for t in tabs)
-            env.prove("%s.C03.no-two-constraint-sharing-variables-move-in-one-cycle" % algo, not share,
-                      detail=lambda: dict(before=A[c], after=A[c + 1]))
+            # cycle counter is c+1 while the decisions leading from A[c] to A[c+1] are taken
+            ia, ib = net.move_info.get((a, c + 1), (False, None)), net.move_info.get((b, c + 1), (False, None))
+            partners = algo == "mgm2" and ia == (True, b) and ib == (True, a)
+            if partners:
+                coordinated.append((a, b))
+            env.prove("%s.C03.no-two-constraint-sharing-variables-move-in-one-cycle-unless-coordinated-partners" % algo,
+                      (not share) or partners, detail=lambda: dict(before=A[c], after=A[c + 1], info=(ia, ib)))
+        if algo == "mgm2":
+            # a coordinated move may change the value of one partner only
+            for a in movers:
+                com, pt = net.move_info.get((a, c + 1), (False, None))
+                if com and pt is not None and tuple(sorted((a, pt))) not in [tuple(sorted(x)) for x in coordinated]:
+                    coordinated.append((a, pt))
+        det = lambda: dict(before=A[c], after=A[c + 1], F_before=F[c], F_after=F[c + 1], mode=mode, coordinated=coordinated)  # noqa
+        if not coordinated:
+            env.prove("%s.C03.global-cost-never-worse-between-cycles[unilateral-moves]" % algo, not_worse(mode, F[c + 1], F[c]), detail=det)
+        else:
+            # cost, before the move, of the constraints shared by the two partners of a coordinated move
+            shared_zero = And(*[eq(sum_shared(a, b, A[c], tabs), 0) for a, b in coordinated])
+            env.prove("%s.C03.global-cost-never-worse-between-cycles[coordinated-move,shared-constraints-cost-zero]" % algo,
+                      Implies(shared_zero, not_worse(mode, F[c + 1], F[c])), detail=det)
+            env.prove("%s.C03.global-cost-never-worse-between-cycles[coordinated-move,shared-constraints-cost-nonzero]" % algo,
+                      Implies(Not(shared_zero), not_worse(mode, F[c + 1], F[c])), detail=det)
         # ---- C04
         if not movers:
             env.cover("stagnation")
+            # (MGM2) did a committed pair tie with the gain of a neighbour outside the pair in this cycle ?
+            tie = False
+            for n in active:
+                gi = net.gain_info.get((n, c + 1))
+                if gi and gi["committed"]:
+                    for o, g in gi["others"].items():
+                        if o != gi["partner"]:
+                            tie = Or(tie, eq(g, gi["gain"]))
             for n in active:
                 cur = local_cost(n, A[c][n], A[c], tabs, varcost)
                 for d in variables[n].domain:
                     if d == A[c][n]:
                         continue
                     alt = local_cost(n, d, A[c], tabs, varcost)
-                    env.prove("%s.C04.no-move-implies-no-unilateral-improvement" % algo,
-                              Not(strictly_better(mode, alt, cur)),
-                              detail=lambda: dict(assignment=A[c], variable=n, better_value=d, mode=mode))
+                    det4 = lambda: dict(assignment=A[c], variable=n, better_value=d, mode=mode)  # noqa
+                    if tie is False:
+                        env.prove("%s.C04.no-move-implies-no-unilateral-improvement" % algo, Not(strictly_better(mode, alt, cur)), detail=det4)
+                    else:
+                        env.prove("%s.C04.no-move-implies-no-unilateral-improvement" % algo,
+                                  Implies(Not(tie), Not(strictly_better(mode, alt, cur))), detail=det4)
+                        env.prove("%s.C04.no-move-implies-no-unilateral-improvement[committed-pair-gain-tied-with-outside-neighbour]" % algo,
+                                  Implies(tie, Not(strictly_better(mode, alt, cur))), detail=det4)
+
+
+def sum_shared(a, b, asg, tabs):
+    tot = 0
+    for t in tabs:
+        ns = [v.name for v in t.variables]
+        if a in ns and b in ns:
+            tot = tot + t(**{v.name: asg[v.name] for v in t.variables})
+    return tot
 
 
 def _shapes_mgm(tier):
@@ -179,4 +245,69 @@ Contract(
     assumptions=["MGM: schedules explored = canonical orders + seeded random orders (+ exhaustive on the 2-node shape in the thorough tier), not all interleavings of the larger shapes"],
     budget=dict(quick=dict(max_paths=30000, timeout_s=400), thorough=dict(max_paths=400000, timeout_s=3000)),
     desc="composite of real MgmComputation objects: cost monotone between cycles, movers independent, stagnation => 1-opt, finishes after stop_cycle cycles, values in domain",
+)
+
+
+def _subsets(names):
+    out = []
+    for r in range(len(names) + 1):
+        out += [list(c) for c in itertools.combinations(names, r)]
+    return out
+
+
+SPECS["pair2"] = dict(vars={"x1": ([0, 1], "plain", 0), "x2": ([0, 1], "plain", 1)}, cons=[["x1", "x2"]])
+
+
+def _shapes_mgm2(tier):
+    q = []
+    for off in _subsets(["x1", "x2"]):
+        q.append(dict(algo="mgm2", spec="pair2", stop_cycle=2, offerers=off))
+    q.append(dict(algo="mgm2", spec="pair2", stop_cycle=2))  # random offerer draw explored symbolically
+    q.append(dict(algo="mgm2", spec="pair_cost", stop_cycle=2, offerers=["x1"]))
+    for off in ([], ["x2"], ["x1"]):
+        q.append(dict(algo="mgm2", spec="chain3", stop_cycle=2, modes=["min"], offerers=off))
+    for off in ([], ["x2"]):
+        q.append(dict(algo="mgm2", spec="chain3", stop_cycle=2, modes=["max"], offerers=off))
+    for off in ([], ["x1"]):
+        q.append(dict(algo="mgm2", spec="tri_nary", stop_cycle=2, modes=["min"], offerers=off))
+    q.append(dict(algo="mgm2", spec="iso", stop_cycle=2, offerers=[]))
+    q.append(dict(algo="mgm2", spec="chain3", stop_cycle=2, modes=["min"], offerers=["x3"], start_order="rev", policy="lifo", interleave_start=True))
+    if tier != "thorough":
+        return q
+    s = list(q)
+    for off in _subsets(["x1", "x2", "x3"]):
+        for spec, modes in (("chain3", ["min"]), ("chain3", ["max"]), ("triangle", ["min"]), ("tri_nary", ["min", "max"]), ("star_cost", ["min"])):
+            d = dict(algo="mgm2", spec=spec, stop_cycle=2, modes=modes, offerers=off)
+            if d not in s:
+                s.append(d)
+    for off in _subsets(["x1", "x2"]):
+        s.append(dict(algo="mgm2", spec="pair3", stop_cycle=2, offerers=off))
+        s.append(dict(algo="mgm2", spec="pair_cost", stop_cycle=2, offerers=off))
+        s.append(dict(algo="mgm2", spec="pair2", stop_cycle=3, offerers=off))
+        s.append(dict(algo="mgm2", spec="pair2", stop_cycle=2, offerers=off, algo_params=dict(favor="coordinated")))
+        s.append(dict(algo="mgm2", spec="pair2", stop_cycle=2, offerers=off, algo_params=dict(favor="no")))
+    s.append(dict(algo="mgm2", spec="iso", stop_cycle=2, offerers=["x1"]))
+    s += [dict(algo="mgm2", spec="chain3", stop_cycle=2, modes=["min"], offerers=["x2"], policy="random", sched_seed=i, interleave_start=bool(i % 2)) for i in range(2, 8)]
+    s.append(dict(algo="mgm2", spec="chain3", stop_cycle=3, modes=["min"], offerers=["x2"]))
+    return s
+
+
+Contract(
+    "mgm2.cycles", ["C03", "C04", "C07", "C10"],
+    ["pydcop.algorithms.mgm2:Mgm2Computation.on_start", "pydcop.algorithms.mgm2:Mgm2Computation.on_value_msg",
+     "pydcop.algorithms.mgm2:Mgm2Computation._handle_value_messages", "pydcop.algorithms.mgm2:Mgm2Computation._compute_best_value",
+     "pydcop.algorithms.mgm2:Mgm2Computation._compute_offers_to_send", "pydcop.algorithms.mgm2:Mgm2Computation._find_best_offer",
+     "pydcop.algorithms.mgm2:Mgm2Computation.on_offer_msg", "pydcop.algorithms.mgm2:Mgm2Computation._handle_offer_messages",
+     "pydcop.algorithms.mgm2:Mgm2Computation.on_answer_msg", "pydcop.algorithms.mgm2:Mgm2Computation._handle_response_message",
+     "pydcop.algorithms.mgm2:Mgm2Computation.on_gain_msg", "pydcop.algorithms.mgm2:Mgm2Computation._handle_gain_messages",
+     "pydcop.algorithms.mgm2:Mgm2Computation.on_go_msg", "pydcop.algorithms.mgm2:Mgm2Computation._handle_go_message",
+     "pydcop.algorithms.mgm2:Mgm2Computation._enter_state", "pydcop.algorithms.mgm2:Mgm2Computation._send_value",
+     "pydcop.algorithms.mgm2:Mgm2Computation._current_local_cost", "pydcop.algorithms.mgm2:Mgm2Computation._compute_cost"],
+    h_mgm_cycles, _shapes_mgm2, mode="B", must_cover=["ran"],
+    trusted=["random.choice / random.uniform modelled as explored choice / fresh real in the interval",
+             "router: per-channel FIFO delivery, one computation per agent (DESIGN.md 4)"],
+    assumptions=["MGM2: schedules explored = canonical orders + seeded random orders, not all interleavings",
+                 "MGM2: the random offerer draw is enumerated as fixed role assignments (every subset of computations as offerers, one job each) on the 3-node shapes; explored as a symbolic draw on the 2-node shape"],
+    budget=dict(quick=dict(max_paths=40000, timeout_s=450), thorough=dict(max_paths=400000, timeout_s=3000)),
+    desc="composite of real Mgm2Computation objects: same cycle-boundary postconditions as MGM; two constraint-sharing movers only as committed partners",
 )
